@@ -43,6 +43,9 @@ RULE = ('operand provenance: fresh C-contiguous arrays, np.asfortranarray copies
         'and derivative arrays alike, for every operation, in both tiers; warm caches: 35 % of the operands had '
         'antimask / wod / corners / slicer queried before the call, and every result is checked for cached accessors '
         'that disagree with its arrays; '
+        'stack / from_scalars also over operand sets of DIFFERENT leading rank with derivatives on the lower-rank operand '
+        'only, on all, or on the higher-rank only (every derivative row coming from a real operand is judged like the '
+        'parent; only None place-holder rows are not compared); '
         'objects: every class with every item shape it admits, denominators of rank 0-2, leading shapes of rank 0-4 with axis '
         'lengths 0-3 (quick: all shapes of rank <= 2 plus a seeded sample of rank 3-4; thorough: all 341), every mask '
         'representation (False / True / array / broadcast view), 0-2 derivatives with their own masks and denominators; '
@@ -123,6 +126,15 @@ def impl(case):
     return observe(r)
 
 
+def wild_eq(got, exp):
+    """structural equality where '?' in the expectation matches anything"""
+    if isinstance(exp, str) and exp == '?':
+        return True
+    if isinstance(exp, (list, tuple)):
+        return isinstance(got, (list, tuple)) and len(got) == len(exp) and all(wild_eq(g, e) for g, e in zip(got, exp))
+    return C.sx(got) == C.sx(exp)
+
+
 def signature(case):
     """operation : shapeless|array : scalar-mask|array-mask (a different operation or path is a different finding)"""
     op = case['op']
@@ -163,6 +175,12 @@ def oracle(case):
         if isinstance(got, str) and got in CLEAN:
             return None
         exp = exp[1]
+    if '?' in C.sx(exp if not isinstance(exp, tuple) else ''):
+        if isinstance(got, list) and wild_eq(got, exp):
+            return None
+        return (signature(case) + ':derivs', '%s %s on %s: implementation returned %s, NumPy on the tagged arrays gives %s '
+                '(? = place-holder rows, not compared)' % (case['op'], case['args'],
+                C.sx([obj_sx(o) for o in case['objs']])[:300], C.sx(got)[:500], C.sx(exp)[:500]))
     if isinstance(exp, tuple) and exp[0] == 'either':
         if C.sx(got) in (C.sx(exp[1]), C.sx(exp[2])):
             return None
@@ -454,6 +472,27 @@ def multi_cases(rng, full):
                     o['kind'] = 'float'
             out.append(mk('from_scalars', objs, {'rec': rng.random() < 0.8,
                                                  'classes': rng.choice([['Vector'], ['Vector3', 'Vector'], ['Pair', 'Vector'], []])}))
+    # operands of DIFFERENT leading rank where (only) the lower-rank operand carries derivatives, and the number of
+    # operands equals the length of the axis a mis-aligned stack axis would land on
+    ranksets = [[[3], [2, 3]], [[2, 3], [3]], [[2], [2, 2]], [[2, 2], [2]], [[3], [3, 3], [1, 3]], [[], [2]], [[2], [3, 2], []],
+                [[1], [2, 1]], [[3], [2, 1, 3]], [[2, 3], [3], [2, 1]]]
+    for _ in range(10 if full else 3):
+        for ss in ranksets:
+            minrank = min(len(s) for s in ss)
+            for mode in ('low', 'all', 'high'):
+                cls = rng.choice(['Scalar', 'Vector', 'Pair', 'Matrix', 'Qube'])
+                numer, kinds = rng.choice(ITEMS[cls])
+                denom = rng.choice([(), (), (2,)])
+                def nd(s):
+                    return (rng.choice([1, 2]) if (mode == 'all' or (mode == 'low') == (len(s) == minrank)) else 0)
+                objs = [rand_obj(rng, s, cls=cls, numer=numer, denom=denom, base=100 * i, kind='float', nderiv=nd(s))
+                        for i, s in enumerate(ss)]
+                out.append(mk('stack', objs, {'rec': True}, 'stack:ranks:' + mode))
+                dn = rng.choice([(), (), (2,)])
+                objs = [rand_obj(rng, s, cls='Scalar', numer=(), denom=dn, base=100 * i, kind='float', nderiv=nd(s))
+                        for i, s in enumerate(ss)]
+                out.append(mk('from_scalars', objs, {'rec': True, 'classes': rng.choice([['Vector'], ['Vector3', 'Vector'], []])},
+                              'from_scalars:ranks:' + mode))
     return out
 
 
